@@ -601,21 +601,8 @@ func init() {
 				lenPath := pathOf(b.Y)
 				// the result indexes the list whose length it was reduced by
 				idxOK := false
-				for _, ref := range *b.Referrers() {
-					var idxUse ssa.Value
-					switch x := ref.(type) {
-					case *ssa.IndexAddr:
-						idxUse = x.X
-					case *ssa.Index:
-						idxUse = x.X
-					case *ssa.Convert:
-						for _, r2 := range *x.Referrers() {
-							if ia, ok := r2.(*ssa.IndexAddr); ok {
-								idxUse = ia.X
-							}
-						}
-					}
-					if idxUse != nil && "len("+pathOf(idxUse)+")" == lenPath {
+				for _, idxUse := range indexedBy(b, 0) {
+					if "len("+pathOf(idxUse)+")" == lenPath {
 						idxOK = true
 					}
 				}
@@ -876,4 +863,30 @@ func isRecvFieldPath(fn *ssa.Function, v ssa.Value) bool {
 	}
 	fa, ok := ld.X.(*ssa.FieldAddr)
 	return ok && isRecvValue(fn, fa.X)
+}
+
+// indexedBy: the collections that are indexed with v, directly or after conversions / merging with
+// other index values in a phi.
+func indexedBy(v ssa.Value, depth int) []ssa.Value {
+	var out []ssa.Value
+	if depth > 4 || v.Referrers() == nil {
+		return nil
+	}
+	for _, ref := range *v.Referrers() {
+		switch x := ref.(type) {
+		case *ssa.IndexAddr:
+			if x.Index == v {
+				out = append(out, x.X)
+			}
+		case *ssa.Index:
+			if x.Index == v {
+				out = append(out, x.X)
+			}
+		case *ssa.Convert:
+			out = append(out, indexedBy(x, depth+1)...)
+		case *ssa.Phi:
+			out = append(out, indexedBy(x, depth+1)...)
+		}
+	}
+	return out
 }
